@@ -48,11 +48,11 @@ mod c15 {
 
     /// twin of C15.TableTablets.add_tablet.contract
     #[kani::proof]
-    #[kani::unwind(8)]
+    #[kani::unwind(6)]
     #[kani::stub(std::rt::thread_cleanup, noop)]
     #[kani::stub(std::hash::RandomState::new, zero_random_state)]
     fn c15_twin_add_tablet() {
-        const N: usize = 3;
+        const N: usize = 2;
         let (mut t, shape, n) = any_list::<N>();
         let old_flag = t.has_unknown_replicas;
         let (f, l, u): (i64, i64, bool) = (kani::any(), kani::any(), kani::any());
@@ -103,11 +103,11 @@ mod c15 {
 
     /// twin of C15.TableTablets.tablet_for_token.contract
     #[kani::proof]
-    #[kani::unwind(8)]
+    #[kani::unwind(6)]
     #[kani::stub(std::rt::thread_cleanup, noop)]
     #[kani::stub(std::hash::RandomState::new, zero_random_state)]
     fn c15_twin_tablet_for_token() {
-        const N: usize = 3;
+        const N: usize = 2;
         let (t, shape, n) = any_list::<N>();
         let tok: i64 = kani::any();
         kani::assume(tok != i64::MIN);
